@@ -119,7 +119,7 @@ def python_tables():
             "gen_py_bytes_space": bytes_space, "gen_py_json_space": json_space}, crlf_one
 
 
-SBCS = ["cp1252", "iso8859-15", "koi8-r", "cp437", "iso8859-7", "mac-roman"]
+SBCS = ["cp1252", "iso8859-15", "koi8-r", "cp437", "iso8859-7", "mac-roman", "ascii"]
 
 
 def sbcs_tables():
